@@ -29,6 +29,13 @@ import (
 
 func TestMain(m *testing.M) { vkit.Main(m, "C19") }
 
+// stall: how long the scheduler waits for a task that is neither parked nor finished before
+// it goes on without it. The code under test holds no lock across store operations, so the
+// wait only matters (a) on a starved machine and (b) for mutants that do block. Exhaustive
+// enumeration needs the same tree on every re-execution and waits long; random schedules
+// only need a valid execution and move on quickly.
+var stall = 60 * time.Millisecond
+
 // ---------------------------------------------------------------------------
 // case
 
@@ -464,7 +471,7 @@ func runCase(c Case, choose func(int, []string) int) result {
 		w.m.recs[mp.ID] = &mrec{id: mp.ID, name: mp.FullDomain, owner: client}
 	}
 	w.g.MaxSteps = 600
-	w.g.Stall = 2 * time.Second // repository code holds no lock across store operations
+	w.g.Stall = stall // repository code holds no lock across store operations
 	w.g.FailAt = c.FailAt
 	// injected faults: writes to index / record keys only (a failed tier READ is reported by
 	// hybrid as not-found — finding C14/tier-read-error-as-miss — and is outside this property)
@@ -930,6 +937,8 @@ var dfsProgs = []dfsProg{
 }
 
 func TestExhaustive(t *testing.T) {
+	stall = 2 * time.Second
+	defer func() { stall = 60 * time.Millisecond }()
 	idx, total := 0, 0
 	for _, prog := range dfsProgs {
 		for _, shared := range []bool{false, true} {
@@ -1009,6 +1018,50 @@ func TestPerNodeCounter(t *testing.T) {
 	vkit.Case("per-node-counter", true, "per-node-counter")
 }
 
+// TestCounterExpiry pins a single-node consequence of how the id counter is stored:
+// hybrid.Incr writes tunnox:http_domain:next_id with the default cache TTL (1 h), so after
+// an idle period the counter is gone while the mappings it numbered are still there; the
+// next CreateMapping mints hdm_1 again and overwrites the record of the first mapping.
+// The TTL is observed on the real store; its expiry is emulated by deleting the key (what
+// the memory backend does at expiry) — no wall-clock wait.
+func TestCounterExpiry(t *testing.T) {
+	if vkit.Shard() != 0 {
+		t.Skip("single shard")
+	}
+	ctx := context.Background()
+	cache := vkit.NewGateCache(nil, "cache")
+	h := hybrid.NewWithSharedCache(ctx, cache, nil, nil, hybrid.DefaultConfig())
+	defer h.Close()
+	repo := repos.NewHTTPDomainMappingRepository(repos.NewRepository(h), []string{baseDomain})
+	a, err := repo.CreateMapping(ctx, 1001, "app", baseDomain, targetHost(1001), targetPort(1001))
+	if err != nil {
+		t.Fatalf("setup: %v", err)
+	}
+	ttl, err := cache.Raw().GetExpiration(repos.KeyHTTPDomainNextID)
+	c := Case{Init: []int{0, -1}, FailAt: -1, Tasks: []TaskC{{Ops: []Op{cr(1, 1)}}}}
+	if err != nil || ttl <= 0 || ttl > 48*time.Hour {
+		// no finite TTL on the counter: nothing to pin
+		vkit.Case("counter-expiry", true, "counter-expiry")
+		return
+	}
+	cache.Raw().Delete(repos.KeyHTTPDomainNextID) // the counter expires
+	b, err := repo.CreateMapping(ctx, 1002, "web", baseDomain, targetHost(1002), targetPort(1002))
+	if err != nil {
+		t.Fatalf("create after expiry: %v", err)
+	}
+	got, lerr := repo.LookupByDomain(ctx, "app."+baseDomain)
+	if a.ID == b.ID || (lerr == nil && got.ClientID != 1001) {
+		owner := int64(0)
+		if got != nil {
+			owner = got.ClientID
+		}
+		vkit.Violation(t, "C19/id-counter/counter-has-ttl/duplicate-mapping-id", fmt.Sprintf("tunnox:http_domain:next_id is stored with TTL %v; once it has expired, CreateMapping(web.%s, client 1002) returns %s, the id of the existing app.%s of client 1001 (%s); LookupByDomain(app.%s) now returns the mapping of client %d", ttl.Round(time.Minute), baseDomain, b.ID, baseDomain, a.ID, baseDomain, owner), c)
+		vkit.Case("known:counter-expiry", true, "counter-expiry")
+		return
+	}
+	vkit.Case("counter-expiry", true, "counter-expiry")
+}
+
 func TestReplay(t *testing.T) {
 	path := vkit.Replaying()
 	if path == "" {
@@ -1026,6 +1079,10 @@ func TestReplay(t *testing.T) {
 	}
 	if strings.Contains(key, "per-node-counter") {
 		TestPerNodeCounter(t)
+		return
+	}
+	if strings.Contains(key, "counter-has-ttl") {
+		TestCounterExpiry(t)
 		return
 	}
 	if _, err := vkit.LoadReplay(path, &c); err != nil {
